@@ -30,13 +30,13 @@ CHECKS = {
          "On every state of E1/E2/E3: transposition_hash equals the from-scratch Zobrist of (board, side, step, status); per root/configuration the map features->hash is single valued over all paths; at every turn end the newest history entry is the from-scratch hash and every entry belongs to a played position; equal (board, side, step) compare and hash equal; parse(print(s)) link on turn-start states of F1, seeds and setup leaves.",
          "Zobrist::from_piece_board is the from-scratch definition (its own injectivity is C17).", "DESIGN.md §4 C08"),
  "C09": ("complete enumeration of the placement trie (Gold's trie completely; Silver's trie completely after each of several Gold arrangements) on the real engine",
-         "Every placement prefix of Gold (144 M nodes) and, after each of 2 (thorough 24) complete Gold arrangements, every placement prefix of Silver: offered placements = kinds with remaining complement; each placement sets exactly the next home square to (mover, kind) and changes nothing else in the 8 raw fields; side flips after Gold's 16th; after Silver's 16th play starts with Gold, move 2, step 0, nothing pending, history = [from-scratch hash].",
+         "Every placement prefix of Gold (144 M nodes) and, after each of 2 (thorough 24) complete Gold arrangements, every placement prefix of Silver: offered placements = kinds with remaining complement; each placement sets exactly the next home square to (mover, kind) and changes nothing else in the 8 raw fields; side flips after Gold's 16th; after Silver's 16th play starts with Gold, move 2, step 0, nothing pending, history = [from-scratch hash]; query order: the 17 prefix states of every Gold order are also produced first and asked afterwards (last-to-first, first-to-last, siblings before their parent).",
          "The full 64.8M x 64.8M product is out of reach; Silver's tries are complete for the listed Gold arrangements only.", "DESIGN.md §2.3, §4 C09"),
  "C10": ("explicit-state exploration; view-agreement invariants on every state, printed diagram re-read by an independent fixed-column reader",
          "Every state of E1/E2/E3: per-type boards disjoint, union = all_pieces, p1 subset; every accessor agrees with the raw fields on all 64 squares; printed diagram (read by the harness's own reader) shows the same kind on every square; bit i = file i mod 8, rank 8 - i div 8; counts within the complement; after any action nothing unsupported on a trap.",
          "Diagram comparison is done once per distinct board per worker.", "DESIGN.md §4 C10"),
  "C11": ("explicit-state exploration in 4-fold lock-step: every state compared with its images under file mirror, colour swap + rank flip, and both (no reference model)",
-         "E1 families (every <=2-piece board, 2x2 fillings, seeds; thorough: 3-piece windows) for one full turn and E2 confined games to fix-point are run in lock-step with their three images: transformed offered and rule-only action sets, results, capture previews and resulting boards must coincide at every step, including which actions the repetition rules withhold.",
+         "E1 families (every <=2-piece board, 2x2 fillings, seeds; thorough: 3-piece windows) for one full turn and E2 confined games to fix-point are run in lock-step with their three images: transformed offered and rule-only action sets, results, capture previews and resulting boards must coincide at every step, including which actions the repetition rules withhold; all 129 seed boards are compared shallowly (states after 0-2 steps) in the quick tier; E10 distance and drag-back scripts in lock-step.",
          "Play phase only (setup order is not mirror symmetric by definition). Families closed under both symmetries are run with one primary per orbit {x, m(x), s(x), ms(x)} - an exact reduction, the lock-step comparison is symmetric; quick: F2 with kinds RCDErcde, hand-made seeds as written.", "DESIGN.md §4 C11"),
  "C12": ("explicit-state exploration; status after every step compared with a transcription of the statement; pending-push list compared with the model",
          "After every step of E1/E2 the reported push/pull status is compared with the deterministic reading of the statement computed from the previous status and the step; at every turn start it is None; while a push is pending the rule-only list must equal the completing steps of unfrozen strictly stronger friends (non-empty).",
@@ -48,10 +48,10 @@ CHECKS = {
          "Every state of E1/E2: piece_board_for_step(i) and previous_piece_boards()[i] equal the explorer's snapshot after i steps for all 0<=i<=k; at turn start only step 0.",
          "none.", "DESIGN.md §4 C14"),
  "C15": ("exhaustive enumeration of input strings (bounded length over an alphabet; a diagram grammar) and print/parse round trip on every visited state",
-         "GameState::from_str is run under catch_unwind (overflow checks on) on every string of a diagram grammar (headers incl. oversized / non-ASCII move numbers x 0..12 rows x 0..12 columns x fillings) and on every string up to length 5 (thorough 6) over an 11-symbol alphabet; every state of F1, every F2 root, and seeds are printed and parsed back (board, side, move number, print, start-of-turn, hash).",
+         "GameState::from_str is run under catch_unwind (overflow checks on) on every string of a diagram grammar (headers incl. oversized / non-ASCII move numbers x 0..12 rows x 0..12 columns x fillings) and on every string up to length 5 (thorough 6) over an 11-symbol alphabet; every state of F1, every F2 root, and seeds are printed and parsed back (board, side, move number, print, start-of-turn, hash); after every rejected text a fixed diagram is parsed on the same thread and compared with the position built without the parser (canary).",
          "Strings outside the grammar/alphabet are not covered.", "DESIGN.md §4 C15"),
  "C16": ("exhaustive enumeration of all strings up to length 4 (thorough 5) over a 45-symbol alphabet through the four parsers; all values round-tripped",
-         "All strings of length 0..4 over an alphabet built from the parsers' decision points (incl. 2/3/4-byte UTF-8, characters whose u8 truncation is a file letter, non-ASCII digits) through Action/Square/Piece/Direction::from_str under catch_unwind with overflow checks: never panics, accepts only printed forms (upper-case piece letters allowed); all 263 actions, 64 squares, 6 pieces, 4 directions round-trip; square/index/bit conversions mutually inverse.",
+         "All strings of length 0..4 over an alphabet built from the parsers' decision points (incl. 2/3/4-byte UTF-8, characters whose u8 truncation is a file letter, non-ASCII digits) through Action/Square/Piece/Direction::from_str under catch_unwind with overflow checks: never panics, accepts only printed forms (upper-case piece letters allowed); all 263 actions, 64 squares, 6 pieces, 4 directions round-trip; square/index/bit conversions mutually inverse; alias sweep: every printed token with one character replaced by every code point equal to it modulo 128 / 256 up to U+10FFFF.",
          "Longer strings only fail the length test in the parsers (read, not enumerated).", "DESIGN.md §4 C16"),
  "C17": ("complete enumeration of the finite hashed-feature domain on constructed states, pairwise comparison",
          "Every square x every pair of the 13 contents, every kind x every pair of squares, both sides, all step pairs, all C(641,2) pairs of push/pull statuses, in three board contexts: all transposition hashes pairwise different. The domain is finite and enumerated completely.",
